@@ -17,6 +17,10 @@ static GLOBAL: alloc::Counting = alloc::Counting;
 use mcx::Tier;
 
 fn main() {
+    mcx::guard_main(real_main);
+}
+
+fn real_main() {
     let args: Vec<String> = std::env::args().collect();
     if args.len() < 3 {
         eprintln!("usage: codecmc <C01|C07|C08|C13|C14> <quick|thorough> | codecmc replay <file>");
